@@ -12,7 +12,7 @@ for nb in (0, 1, 2, 3):
     U = max(nb + 3, 5)
     for e, sh in (('h_long_aggregate', '2 symbolic int64 values in [0,2^62)'), ('h_double_aggregate', '2 symbolic finite non-negative doubles'),
                   ('h_long_merge', '1+1 values merged vs 2 values in one histogram'), ('h_double_merge', '1+1 values merged vs 2 values in one histogram')):
-        QUERIES.append(dict(name='%s_nb%d' % (e[2:], nb), harness='c07_%d' % nb, entry=e, unwind=U, unwindset={'memmove': 40, 'memcpy': 40, 'memset': 40}, tier=tier, timeout=900,
+        QUERIES.append(dict(name='%s_nb%d' % (e[2:], nb), harness='c07_%d' % nb, entry=e, unwind=U, unwindset={'memmove': 40, 'memcpy': 40, 'memset': 40}, tier=tier, timeout=900, solvers=['cadical', 'minisat'],
                             shape='%d symbolic strictly increasing finite boundaries; %s' % (nb, sh)))
 QUERIES.append(dict(name='default_boundaries', harness='c07_2', entry='h_default_boundaries', unwind=18, unwindset={'memmove': 140, 'memcpy': 140, 'memset': 140}, timeout=900,
                     shape='15 default boundaries, one symbolic finite non-negative double'))
